@@ -39,3 +39,97 @@ package vm
 //@   ensures @C18 sqrt.underflow: old(depth(vm)) == 0 ==> err != nil
 //@   ensures sqrt.valid: stackValid(vm)
 //@   panics never
+//@ func (vm *VM) evalIntegerInfixExpression(op code.Opcode, left object.Object, right object.Object) (err error)
+//@   requires vmOK(vm) && stackValid(vm) && isInt(left) && isInt(right) && ptr(left) != 0 && ptr(right) != 0
+//@   modifies vm.stack.entries, vm.stack.entries[*]
+//@   ensures @C01 int.add: op == code.OpAdd ==> err == nil && pushed1(vm) && topInt(vm, wrap64(old(ival(left)) + old(ival(right))))
+//@   ensures @C01 int.sub: op == code.OpSub ==> err == nil && pushed1(vm) && topInt(vm, wrap64(old(ival(left)) - old(ival(right))))
+//@   ensures @C01 int.mul: op == code.OpMul ==> err == nil && pushed1(vm) && topInt(vm, wrap64(old(ival(left)) * old(ival(right))))
+//@   ensures @C01 int.div: op == code.OpDiv && old(ival(right)) != 0 ==> err == nil && pushed1(vm) && topInt(vm, wrap64(old(ival(left)) / old(ival(right))))
+//@   ensures @C01 int.div0: op == code.OpDiv && old(ival(right)) == 0 ==> err != nil && stackSame(vm)
+//@   ensures @C01 int.mod: op == code.OpMod && old(ival(right)) != 0 ==> err == nil && pushed1(vm) && topInt(vm, old(ival(left)) % old(ival(right)))
+//@   ensures @C01 @pinned int.power: op == code.OpPower ==> err == nil && pushed1(vm) && topInt(vm, f2i(pow(i2f(old(ival(left))), i2f(old(ival(right))))))
+//@   ensures @C01 int.less: op == code.OpLess ==> err == nil && pushed1(vm) && topBool(vm, old(ival(left)) < old(ival(right)))
+//@   ensures @C01 int.lessequal: op == code.OpLessEqual ==> err == nil && pushed1(vm) && topBool(vm, old(ival(left)) <= old(ival(right)))
+//@   ensures @C01 int.greater: op == code.OpGreater ==> err == nil && pushed1(vm) && topBool(vm, old(ival(left)) > old(ival(right)))
+//@   ensures @C01 int.greaterequal: op == code.OpGreaterEqual ==> err == nil && pushed1(vm) && topBool(vm, old(ival(left)) >= old(ival(right)))
+//@   ensures @C01 int.equal: op == code.OpEqual ==> err == nil && pushed1(vm) && topBool(vm, old(ival(left)) == old(ival(right)))
+//@   ensures @C01 int.notequal: op == code.OpNotEqual ==> err == nil && pushed1(vm) && topBool(vm, old(ival(left)) != old(ival(right)))
+//@   ensures @C01 int.badop: op != code.OpAdd && op != code.OpSub && op != code.OpMul && op != code.OpDiv && op != code.OpMod && op != code.OpPower && op != code.OpLess && op != code.OpLessEqual && op != code.OpGreater && op != code.OpGreaterEqual && op != code.OpEqual && op != code.OpNotEqual ==> err != nil && stackSame(vm)
+//@   ensures int.valid: stackValid(vm)
+//@   panics when op == code.OpMod && ival(right) == 0
+
+//@ func (vm *VM) evalFloatInfixExpression(op code.Opcode, left object.Object, right object.Object) (err error)
+//@   requires vmOK(vm) && stackValid(vm) && isFloat(left) && isFloat(right) && ptr(left) != 0 && ptr(right) != 0
+//@   modifies vm.stack.entries, vm.stack.entries[*]
+//@   ensures @C01 ff.add: op == code.OpAdd ==> err == nil && pushed1(vm) && topFloat(vm, old(fval(left)) + old(fval(right)))
+//@   ensures @C01 ff.sub: op == code.OpSub ==> err == nil && pushed1(vm) && topFloat(vm, old(fval(left)) - old(fval(right)))
+//@   ensures @C01 ff.mul: op == code.OpMul ==> err == nil && pushed1(vm) && topFloat(vm, old(fval(left)) * old(fval(right)))
+//@   ensures @C01 ff.div: op == code.OpDiv && !fzero(old(fval(right))) ==> err == nil && pushed1(vm) && topFloat(vm, old(fval(left)) / old(fval(right)))
+//@   ensures @C01 ff.div0: op == code.OpDiv && fzero(old(fval(right))) ==> err != nil && stackSame(vm)
+//@   ensures @C01 @pinned ff.mod: op == code.OpMod && f2i(old(fval(right))) != 0 ==> err == nil && pushed1(vm) && topFloat(vm, i2f(f2i(old(fval(left))) % f2i(old(fval(right)))))
+//@   ensures @C01 @pinned ff.power: op == code.OpPower ==> err == nil && pushed1(vm) && topFloat(vm, pow(old(fval(left)), old(fval(right))))
+//@   ensures @C01 ff.less: op == code.OpLess ==> err == nil && pushed1(vm) && topBool(vm, old(fval(left)) < old(fval(right)))
+//@   ensures @C01 ff.lessequal: op == code.OpLessEqual ==> err == nil && pushed1(vm) && topBool(vm, old(fval(left)) <= old(fval(right)))
+//@   ensures @C01 ff.greater: op == code.OpGreater ==> err == nil && pushed1(vm) && topBool(vm, old(fval(left)) > old(fval(right)))
+//@   ensures @C01 ff.greaterequal: op == code.OpGreaterEqual ==> err == nil && pushed1(vm) && topBool(vm, old(fval(left)) >= old(fval(right)))
+//@   ensures @C01 ff.equal: op == code.OpEqual ==> err == nil && pushed1(vm) && topBool(vm, old(fval(left)) == old(fval(right)))
+//@   ensures @C01 ff.notequal: op == code.OpNotEqual ==> err == nil && pushed1(vm) && topBool(vm, old(fval(left)) != old(fval(right)))
+//@   ensures @C01 ff.badop: op != code.OpAdd && op != code.OpSub && op != code.OpMul && op != code.OpDiv && op != code.OpMod && op != code.OpPower && op != code.OpLess && op != code.OpLessEqual && op != code.OpGreater && op != code.OpGreaterEqual && op != code.OpEqual && op != code.OpNotEqual ==> err != nil && stackSame(vm)
+//@   ensures ff.valid: stackValid(vm)
+//@   panics when op == code.OpMod && f2i(fval(right)) == 0
+
+//@ func (vm *VM) evalFloatIntegerInfixExpression(op code.Opcode, left object.Object, right object.Object) (err error)
+//@   requires vmOK(vm) && stackValid(vm) && isFloat(left) && isInt(right) && ptr(left) != 0 && ptr(right) != 0
+//@   modifies vm.stack.entries, vm.stack.entries[*]
+//@   ensures @C01 fi.add: op == code.OpAdd ==> err == nil && pushed1(vm) && topFloat(vm, old(fval(left)) + old(i2f(ival(right))))
+//@   ensures @C01 fi.sub: op == code.OpSub ==> err == nil && pushed1(vm) && topFloat(vm, old(fval(left)) - old(i2f(ival(right))))
+//@   ensures @C01 fi.mul: op == code.OpMul ==> err == nil && pushed1(vm) && topFloat(vm, old(fval(left)) * old(i2f(ival(right))))
+//@   ensures @C01 fi.div: op == code.OpDiv && !fzero(old(i2f(ival(right)))) ==> err == nil && pushed1(vm) && topFloat(vm, old(fval(left)) / old(i2f(ival(right))))
+//@   ensures @C01 fi.div0: op == code.OpDiv && fzero(old(i2f(ival(right)))) ==> err != nil && stackSame(vm)
+//@   ensures @C01 @pinned fi.mod: op == code.OpMod && f2i(old(i2f(ival(right)))) != 0 ==> err == nil && pushed1(vm) && topFloat(vm, i2f(f2i(old(fval(left))) % f2i(old(i2f(ival(right))))))
+//@   ensures @C01 @pinned fi.power: op == code.OpPower ==> err == nil && pushed1(vm) && topFloat(vm, pow(old(fval(left)), old(i2f(ival(right)))))
+//@   ensures @C01 fi.less: op == code.OpLess ==> err == nil && pushed1(vm) && topBool(vm, old(fval(left)) < old(i2f(ival(right))))
+//@   ensures @C01 fi.lessequal: op == code.OpLessEqual ==> err == nil && pushed1(vm) && topBool(vm, old(fval(left)) <= old(i2f(ival(right))))
+//@   ensures @C01 fi.greater: op == code.OpGreater ==> err == nil && pushed1(vm) && topBool(vm, old(fval(left)) > old(i2f(ival(right))))
+//@   ensures @C01 fi.greaterequal: op == code.OpGreaterEqual ==> err == nil && pushed1(vm) && topBool(vm, old(fval(left)) >= old(i2f(ival(right))))
+//@   ensures @C01 fi.equal: op == code.OpEqual ==> err == nil && pushed1(vm) && topBool(vm, old(fval(left)) == old(i2f(ival(right))))
+//@   ensures @C01 fi.notequal: op == code.OpNotEqual ==> err == nil && pushed1(vm) && topBool(vm, old(fval(left)) != old(i2f(ival(right))))
+//@   ensures @C01 fi.badop: op != code.OpAdd && op != code.OpSub && op != code.OpMul && op != code.OpDiv && op != code.OpMod && op != code.OpPower && op != code.OpLess && op != code.OpLessEqual && op != code.OpGreater && op != code.OpGreaterEqual && op != code.OpEqual && op != code.OpNotEqual ==> err != nil && stackSame(vm)
+//@   ensures fi.valid: stackValid(vm)
+//@   panics when op == code.OpMod && f2i(i2f(ival(right))) == 0
+
+//@ func (vm *VM) evalIntegerFloatInfixExpression(op code.Opcode, left object.Object, right object.Object) (err error)
+//@   requires vmOK(vm) && stackValid(vm) && isInt(left) && isFloat(right) && ptr(left) != 0 && ptr(right) != 0
+//@   modifies vm.stack.entries, vm.stack.entries[*]
+//@   ensures @C01 if.add: op == code.OpAdd ==> err == nil && pushed1(vm) && topFloat(vm, old(i2f(ival(left))) + old(fval(right)))
+//@   ensures @C01 if.sub: op == code.OpSub ==> err == nil && pushed1(vm) && topFloat(vm, old(i2f(ival(left))) - old(fval(right)))
+//@   ensures @C01 if.mul: op == code.OpMul ==> err == nil && pushed1(vm) && topFloat(vm, old(i2f(ival(left))) * old(fval(right)))
+//@   ensures @C01 if.div: op == code.OpDiv && !fzero(old(fval(right))) ==> err == nil && pushed1(vm) && topFloat(vm, old(i2f(ival(left))) / old(fval(right)))
+//@   ensures @C01 if.div0: op == code.OpDiv && fzero(old(fval(right))) ==> err != nil && stackSame(vm)
+//@   ensures @C01 @pinned if.mod: op == code.OpMod && f2i(old(fval(right))) != 0 ==> err == nil && pushed1(vm) && topFloat(vm, i2f(f2i(old(i2f(ival(left)))) % f2i(old(fval(right)))))
+//@   ensures @C01 @pinned if.power: op == code.OpPower ==> err == nil && pushed1(vm) && topFloat(vm, pow(old(i2f(ival(left))), old(fval(right))))
+//@   ensures @C01 if.less: op == code.OpLess ==> err == nil && pushed1(vm) && topBool(vm, old(i2f(ival(left))) < old(fval(right)))
+//@   ensures @C01 if.lessequal: op == code.OpLessEqual ==> err == nil && pushed1(vm) && topBool(vm, old(i2f(ival(left))) <= old(fval(right)))
+//@   ensures @C01 if.greater: op == code.OpGreater ==> err == nil && pushed1(vm) && topBool(vm, old(i2f(ival(left))) > old(fval(right)))
+//@   ensures @C01 if.greaterequal: op == code.OpGreaterEqual ==> err == nil && pushed1(vm) && topBool(vm, old(i2f(ival(left))) >= old(fval(right)))
+//@   ensures @C01 if.equal: op == code.OpEqual ==> err == nil && pushed1(vm) && topBool(vm, old(i2f(ival(left))) == old(fval(right)))
+//@   ensures @C01 if.notequal: op == code.OpNotEqual ==> err == nil && pushed1(vm) && topBool(vm, old(i2f(ival(left))) != old(fval(right)))
+//@   ensures @C01 if.badop: op != code.OpAdd && op != code.OpSub && op != code.OpMul && op != code.OpDiv && op != code.OpMod && op != code.OpPower && op != code.OpLess && op != code.OpLessEqual && op != code.OpGreater && op != code.OpGreaterEqual && op != code.OpEqual && op != code.OpNotEqual ==> err != nil && stackSame(vm)
+//@   ensures if.valid: stackValid(vm)
+//@   panics when op == code.OpMod && f2i(fval(right)) == 0
+
+//@ func (vm *VM) evalStringInfixExpression(op code.Opcode, left object.Object, right object.Object) (err error)
+//@   requires vmOK(vm) && stackValid(vm) && isStr(left) && isStr(right) && ptr(left) != 0 && ptr(right) != 0
+//@   modifies vm.stack.entries, vm.stack.entries[*]
+//@   ensures @C01 str.less: op == code.OpLess ==> err == nil && pushed1(vm) && topBool(vm, old(sval(left)) < old(sval(right)))
+//@   ensures @C01 str.lessequal: op == code.OpLessEqual ==> err == nil && pushed1(vm) && topBool(vm, old(sval(left)) <= old(sval(right)))
+//@   ensures @C01 str.greater: op == code.OpGreater ==> err == nil && pushed1(vm) && topBool(vm, old(sval(left)) > old(sval(right)))
+//@   ensures @C01 str.greaterequal: op == code.OpGreaterEqual ==> err == nil && pushed1(vm) && topBool(vm, old(sval(left)) >= old(sval(right)))
+//@   ensures @C01 str.equal: op == code.OpEqual ==> err == nil && pushed1(vm) && topBool(vm, old(sval(left)) == old(sval(right)))
+//@   ensures @C01 str.notequal: op == code.OpNotEqual ==> err == nil && pushed1(vm) && topBool(vm, old(sval(left)) != old(sval(right)))
+//@   ensures @C01 str.add: op == code.OpAdd ==> err == nil && pushed1(vm) && topStr(vm, old(sval(left)) + old(sval(right)))
+//@   ensures @C01 @C16 str.in: op == code.OpArrayIn ==> err == nil && pushed1(vm) && topBool(vm, strContains(old(sval(right)), old(sval(left))))
+//@   ensures @C01 str.badop: op != code.OpLess && op != code.OpLessEqual && op != code.OpGreater && op != code.OpGreaterEqual && op != code.OpEqual && op != code.OpNotEqual && op != code.OpAdd && op != code.OpArrayIn ==> err != nil && stackSame(vm)
+//@   ensures str.valid: stackValid(vm)
+//@   panics never
